@@ -81,7 +81,9 @@ func (l *ledgerAlloc) poll() {
 
 func (l *ledgerAlloc) AllocateBlockMemory(p peer.ID, amount uint64) <-chan error {
 	l.mu.Lock()
+	l.w.markLock(+1)
 	defer l.mu.Unlock()
+	defer l.w.markLock(-1)
 	pa := &ledgerPending{p: p, size: amount, in: l.inner.AllocateBlockMemory(p, amount), out: make(chan error, 1)}
 	l.pending = append(l.pending, pa)
 	l.poll()
@@ -94,7 +96,9 @@ func (l *ledgerAlloc) ReleaseBlockMemory(p peer.ID, amount uint64) error {
 	// reservation is answered: one release at a time, in peer order
 	l.w.Park("barrier", "barrier|release|"+l.name(p))
 	l.mu.Lock()
+	l.w.markLock(+1)
 	defer l.mu.Unlock()
+	defer l.w.markLock(-1)
 	if amount > l.outstanding[p] {
 		if l.viol == nil {
 			l.violPeer = l.name(p)
@@ -115,7 +119,9 @@ func (l *ledgerAlloc) ReleaseBlockMemory(p peer.ID, amount uint64) error {
 func (l *ledgerAlloc) ReleasePeerMemory(p peer.ID) error {
 	l.w.Park("barrier", "barrier|release|"+l.name(p))
 	l.mu.Lock()
+	l.w.markLock(+1)
 	defer l.mu.Unlock()
+	defer l.w.markLock(-1)
 	l.wiped[p] += l.outstanding[p]
 	l.outstanding[p] = 0
 	err := l.inner.ReleasePeerMemory(p)
@@ -126,18 +132,24 @@ func (l *ledgerAlloc) ReleasePeerMemory(p peer.ID) error {
 // Grants reports how many reservations of exactly this size the peer was granted.
 func (l *ledgerAlloc) Grants(peerName string, size uint64) int {
 	l.mu.Lock()
+	l.w.markLock(+1)
 	defer l.mu.Unlock()
+	defer l.w.markLock(-1)
 	return l.grantsBySz[fmt.Sprintf("%s/%d", peerName, size)]
 }
 
 func (l *ledgerAlloc) Violation() *Violation {
 	l.mu.Lock()
+	l.w.markLock(+1)
 	defer l.mu.Unlock()
+	defer l.w.markLock(-1)
 	return l.viol
 }
 
 func (l *ledgerAlloc) Outstanding(p peer.ID) uint64 {
 	l.mu.Lock()
+	l.w.markLock(+1)
 	defer l.mu.Unlock()
+	defer l.w.markLock(-1)
 	return l.outstanding[p]
 }
